@@ -14,8 +14,8 @@ fn only_file(root: &std::path::Path) -> Vec<String> {
 }
 
 fn check_case(case: &Value, idx: usize) -> Option<Value> {
-    let input = &case["input"].as_str().unwrap().replace('~', "\u{e9}").replace('^', "\u{fc}");
-    let expect = &case["expect"].as_str().unwrap().replace('~', "\u{e9}").replace('^', "\u{fc}");
+    let input = &case["input"].as_str().unwrap().replace('~', "\u{e9}").replace('^', "\u{fc}").replace('%', "\u{663}");
+    let expect = &case["expect"].as_str().unwrap().replace('~', "\u{e9}").replace('^', "\u{fc}").replace('%', "\u{663}");
     // 1. file appender
     {
         let s = Scratch::new("env");
@@ -153,7 +153,7 @@ fn check_case(case: &Value, idx: usize) -> Option<Value> {
             }
             Ok(())
         });
-        let sub = |v: &Value| v.as_str().unwrap().replace('~', "\u{e9}").replace('^', "\u{fc}");
+        let sub = |v: &Value| v.as_str().unwrap().replace('~', "\u{e9}").replace('^', "\u{fc}").replace('%', "\u{663}");
         match r {
             Err(pn) => return Some(json!({"site": "FixedWindowRoller (index inside the text)", "what": "panic", "error": pn})),
             Ok(Err(e)) => return Some(json!({"site": "FixedWindowRoller (index inside the text)", "what": "roll failed", "error": e.to_string()})),
@@ -184,7 +184,7 @@ pub fn main(args: &[String]) {
         std::env::set_var(std::ffi::OsStr::from_bytes(b"LV_BY\xffSTANDER"), std::ffi::OsStr::from_bytes(b"x"));
     }
     for (k, v) in meta["vars"].as_object().unwrap() {
-        std::env::set_var(k.replace('~', "\u{e9}"), v.as_str().unwrap().replace('^', "\u{fc}"));
+        std::env::set_var(k.replace('~', "\u{e9}").replace('%', "\u{663}"), v.as_str().unwrap().replace('^', "\u{fc}"));
     }
     for u in meta["unset"].as_array().unwrap() {
         std::env::remove_var(u.as_str().unwrap());
